@@ -76,6 +76,16 @@ def norm_path(p):
     return ".".join(parts) or "<root>"
 
 
+def area(p):
+    """coarse, stable location of a state change (bucket key): one root cause -> one area"""
+    parts = norm_path(p).split(".")
+    if "statistics" in parts:
+        return ".".join(parts[: parts.index("statistics") + 1])
+    if parts[0] in ("columns", "index", "indexes"):
+        return ".".join(parts[:2])
+    return parts[0]
+
+
 def _safe(fn, default=None):
     try:
         return fn()
@@ -145,25 +155,29 @@ def in_thread(fn):
     return box
 
 
-def draw_once(make_strategy):
-    import hypothesis
-    from hypothesis import HealthCheck, Phase, given, settings
+def draw_once(make_strategy, seed=0):
+    """One generation attempt from a pandera strategy with a fixed seed (ok | rejected | raised:<Type>).
+    A full ``@given`` run costs up to 1000 attempts on over-constrained schemas; one attempt is enough to see
+    whether leaked state breaks synthesis."""
+    from random import Random
+
+    from hypothesis.control import BuildContext
+    from hypothesis.errors import UnsatisfiedAssumption
+    from hypothesis.internal.conjecture.data import ConjectureData, StopTest
 
     def body():
         strat = make_strategy()
-        got = []
-
-        @hypothesis.seed(0)
-        @settings(max_examples=1, database=None, deadline=None, phases=[Phase.generate],
-                  suppress_health_check=list(HealthCheck))
-        @given(strat)
-        def t(x):
-            got.append(x)
-
-        t()
-        return len(got)
+        data = ConjectureData(random=Random(seed), prefix=(), max_choices=4000)
+        try:
+            with BuildContext(data, wrapped_test=None):
+                data.draw(strat)
+        except (StopTest, UnsatisfiedAssumption):
+            return "rejected"
+        return "drawn"
 
     r = in_thread(body)
+    if r["kind"] == "ok":
+        return {"kind": r["v"]}
     return {"kind": r["kind"]}
 
 
@@ -276,10 +290,11 @@ def run_op(h, op, probes, snapshot0):
     elif name == "draw":
         out = draw_once(lambda: S.strategy(size=op.get("size", 1)))["kind"]
         obs = out
-    elif name == "example":
-        out = in_thread(lambda: S.example(size=op.get("size", 1)))["kind"]
-    elif name == "model_example":
-        out = in_thread(lambda: h.Model.example(size=op.get("size", 1)))["kind"]
+    elif name in ("example", "model_example"):
+        out = draw_once(lambda: S.strategy(size=op.get("size", 1)))["kind"]
+        if out == "drawn":
+            target = S if name == "example" else h.Model
+            out = in_thread(lambda: target.example(size=op.get("size", 1)))["kind"]
     elif name == "repr":
         obs = attempt(lambda: repr(S))
     elif name == "str":
@@ -287,9 +302,14 @@ def run_op(h, op, probes, snapshot0):
     elif name == "eq":
         attempt(lambda: S == snapshot0)
         attempt(lambda: S != snapshot0)
-        attempt(lambda: S == 1)
     elif name == "copy":
-        attempt(lambda: copy.copy(S))
+        def copy_and_edit():
+            dup = copy.copy(S)
+            if op.get("edit") == "name":
+                dup.name = "renamed-copy"
+            elif op.get("edit") == "coerce":
+                dup.coerce = not dup.coerce
+        attempt(copy_and_edit)
     elif name == "deepcopy":
         attempt(lambda: copy.deepcopy(S))
     elif name == "pickle":
@@ -481,7 +501,8 @@ def evaluate(case):
         cur = fp.fingerprint(h.S)
         if cur != fp0:
             diffs = fp.fp_diff(fp0, cur, limit=8)
-            paths = sorted({norm_path(d["path"]) for d in diffs}) or ["<unlocated>"]
+            paths = sorted({area(d["path"]) for d in diffs}) or ["<unlocated>"]
+            paths = [a for a in paths if not any(b != a and a.startswith(b + ".") for b in paths)]
             pathkey = "+".join(paths)[:120]
             ev.add(f"state-changed:{label}:{pathkey}",
                    {"step": i, "op": op, "outcome": outcome, "diff": diffs[:4],
@@ -552,6 +573,88 @@ def evaluate(case):
         ev.labels.append("history>=8")
     ev.nontrivial = fail_then_op or ser_then_use
     return ev
+
+
+# ------------------------------------------------------------------ known findings
+# Each predicate matches the trigger (features of the case / of the operation that was running) AND the symptom
+# (discrepancy kind: which operation changed which part of the schema).
+
+
+def _disc_parts(disc):
+    """kind = '<symptom>:<op label>:<areas>' -> (symptom, op name, outcome, [areas])"""
+    bits = disc.kind.split(":", 2)
+    if len(bits) != 3:
+        return None, None, None, []
+    opname, _, outcome = bits[1].partition("/")
+    return bits[0], opname, outcome, bits[2].split("+")
+
+
+STATE_SYMPTOMS = ("state-changed", "impact-verdict", "impact-to_yaml", "impact-strategy")
+
+
+def _all_checks(spec):
+    out = list(spec.get("checks", []))
+    for c in spec["columns"]:
+        out += c.get("checks", [])
+    ix = spec.get("index")
+    for i in (ix if isinstance(ix, list) else [ix] if ix else []):
+        out += i.get("checks", [])
+    return out
+
+
+SERIALISABLE = set(["gt", "ge", "lt", "le", "eq", "ne", "in_range", "isin", "notin", "str_matches", "str_contains",
+                    "str_startswith", "str_endswith", "str_length", "unique_values_eq", "registered"])
+
+
+@known.finding("C05/parse-checks-aliases-statistics")
+def _k_statistics(family, case, disc):
+    sym, opname, _, areas = _disc_parts(disc)
+    return (sym in STATE_SYMPTOMS and opname in ("statistics", "to_yaml", "to_json", "to_script", "model_to_yaml")
+            and all(a.endswith("checks.statistics") for a in areas)
+            and any(c["kind"] in SERIALISABLE for c in _all_checks(case["schema"])))
+
+
+@known.finding("C05/datetime-tz-agnostic-check-rewrites-dtype")
+def _k_tz(family, case, disc):
+    sym, opname, _, areas = _disc_parts(disc)
+    return (sym in STATE_SYMPTOMS and opname in ("validate", "component_validate", "coerce_dtype", "get_dtypes")
+            and all(a in ("columns.dtype", "dtype") for a in areas)
+            and any(str(c.get("dtype")).startswith("dt_agnostic") for c in case["schema"]["columns"]))
+
+
+@known.finding("C05/shallow-copy-shares-instance-dict")
+def _k_copy(family, case, disc):
+    sym, opname, _, areas = _disc_parts(disc)
+    if sym not in STATE_SYMPTOMS:
+        return False
+    if opname == "copy":
+        return areas in (["coerce"], ["name"])
+    if opname == "update_checks":
+        return areas == ["checks"]
+    if opname == "component_update_checks":
+        return areas == ["columns.checks"]
+    return False
+
+
+@known.finding("C05/multiindex-coerce-flag-not-restored")
+def _k_mi(family, case, disc):
+    sym, opname, _, areas = _disc_parts(disc)
+    ix = case["schema"].get("index")
+    return (sym in STATE_SYMPTOMS and opname == "validate" and areas == ["index.coerce"] and isinstance(ix, list)
+            and any(i.get("coerce") for i in ix))
+
+
+@known.finding("C05/reset-index-empty-level-returns-receiver")
+def _k_reset(family, case, disc):
+    return (disc.kind == "transform-returned-receiver:reset_index"
+            and isinstance(disc.detail, dict) and disc.detail.get("op", {}).get("level") == "empty")
+
+
+@known.finding("C05/model-to-schema-hands-out-cached-object")
+def _k_model(family, case, disc):
+    sym, opname, _, areas = _disc_parts(disc)
+    return (sym in STATE_SYMPTOMS and opname == "model_edit_returned" and case["schema"]["kind"] == "model"
+            and areas in (["strict"], ["coerce"]))
 
 
 def strat_history():
